@@ -28,6 +28,7 @@ CONFIGS = {
         "quick": [("wd", "waker", "WB_same", "S_wd", "M_p2"),
                   ("wd2", "waker", "WB_same", "S_wd2", "M_p1"),
                   ("wrec", "waker", "WB_same", "S_wd2", "M_recycle"),
+                  ("wrec2", "waker", "WB_two", "S_wr2", "M_recycle2"),
                   ("hfin", "waker", "WB_three", "S_h1", "M_p2", "HP_findrop"),
                   ("hself", "waker", "WB_three", "S_h1", "M_h2", "HP_selfdrop"),
                   ("hnest", "waker", "WB_three", "S_h3", "M_p1", "HP_nested")],
@@ -295,7 +296,7 @@ def run(prop, tier, seed, replay=None):
             if "Model checking completed. No error has been found." not in out:
                 raise common.ToolError("TLC did not complete on Sync/%s:\n%s" % (name, out[-3000:]))
             cfgx = write_cfg(name + "_x", k, wb, sc, ms, "SeqCst", "SeqCst", True, hp)
-            out = tlc_run(cfgx, "syncsim-%s-%s" % (prop, name), sim=(nsim // 4 if name == "w_two" else nsim), seed=seed)
+            out = tlc_run(cfgx, "syncsim-%s-%s" % (prop, name), sim=(nsim // 4 if name in ("w_two", "wrec2") else nsim), seed=seed)
             behs = syncexport.parse(out)
             for i, b in enumerate(behs):
                 cases.append(syncexport.build_case(b, "%s-%d" % (name, i)))
